@@ -1,10 +1,12 @@
 package props
 
 import (
+	"encoding/json"
 	"fmt"
 	"runtime/debug"
 	"sort"
 	"strings"
+	"unicode/utf8"
 
 	"pgregory.net/rapid"
 
@@ -159,6 +161,55 @@ func checkC18(cc any) *ev.Verdict {
 			}
 			if pan := navigate(a.res, li, ch); pan != "" {
 				return v.Failf(crashClass(pan), "hover / go-to-definition at %d:%d panicked on %q: %s", li, ch, text, firstLines(pan, 14))
+			}
+		}
+	}
+	// the same questions asked through the language server's own handlers (a quarter of the
+	// texts, at the start and in the middle of up to 60 tokens): the handlers add work of their
+	// own (document store, conversion of positions, excerpts of the text) that must not crash either
+	if len(text)%4 == 0 {
+		v.Label("lsp-level")
+		const uri = "file:///c18.num"
+		st := verifapi.LspInitialState()
+		if r := lspCall(&st, "textDocument/didOpen", map[string]any{"textDocument": map[string]any{"uri": uri, "text": text}}); r.Panic != "" {
+			return v.Failf(crashClass(r.Panic), "the language server panicked on didOpen of %q: %s", text, firstLines(r.Panic, 14))
+		}
+		ask := func(method string, params any) (pan string) {
+			defer func() {
+				if r := recover(); r != nil {
+					pan = fmt.Sprintf("%v\n%s", r, debug.Stack())
+				}
+			}()
+			pj, _ := json.Marshal(params)
+			verifapi.LspHandle(&st, method, pj)
+			return ""
+		}
+		if pan := ask("textDocument/documentSymbol", docParams(uri)); pan != "" {
+			return v.Failf(crashClass(pan), "the language server panicked on documentSymbol of %q: %s", text, firstLines(pan, 14))
+		}
+		toks := lex.Lex(text).Tokens
+		line, col, off := 0, 0, 0
+		for i, tk := range toks {
+			if i >= 60 {
+				break
+			}
+			for off < tk.Off && off < len(text) {
+				r, size := utf8.DecodeRuneInString(text[off:])
+				_ = r
+				if text[off] == '\n' {
+					line++
+					col = 0
+				} else {
+					col++
+				}
+				off += size
+			}
+			for _, dc := range []int{0, 1, lex.RuneLen(tk.Text) / 2} {
+				for _, method := range []string{"textDocument/hover", "textDocument/definition"} {
+					if pan := ask(method, posParams(uri, line, col+dc)); pan != "" {
+						return v.Failf(crashClass(pan), "the language server panicked on %s at %d:%d of %q: %s", method, line, col+dc, text, firstLines(pan, 14))
+					}
+				}
 			}
 		}
 	}
